@@ -14,8 +14,9 @@ def c20Line (kind t : String) (rest : List String) : String :=
     let ndebug := (getKey rest "ndebug").getD "0" == "1"
     if (plainToks rest).contains "adm" then
       -- admissible: a valid source mapping whose span is representable in both index types
+      -- admissible: a valid source mapping (in its own index type) and extents whose canonical mapping is representable in the target's
       let ok := !(esU.any (· < 0)) && !(ss.any (· < 0)) &&
-        (Layout.stride (esU.map Int.toNat) (ss.map Int.toNat)).admB U && (Layout.stride (esU.map Int.toNat) (ss.map Int.toNat)).admB T
+        (Layout.stride (esU.map Int.toNat) (ss.map Int.toNat)).admB U && (Layout.left (esU.map Int.toNat)).admB T
       s!"ok {fmtB ok}"
     else if ndebug || es.isEmpty then s!"ok {fmtL es}"
     else
